@@ -134,6 +134,25 @@ def one_case(case: Dict[str, Any]) -> Dict[str, Any]:
         cfg = {"target_file_path": case.get("target", "schema_out.py"), "plugins": []}
     feats = set(feats)
     feats.add("strategy." + strategy)
+    extra_files: Dict[str, str] = {}
+    if strategy == "client" and case.get("scalar_paths") and spec.scalars:
+        # custom scalar types imported by absolute name from the target package itself, from a module lying in the working directory, or relatively:
+        # where the import sorter files them must not depend on what the working directory happens to contain at that moment
+        pkgname = cfg.get("target_package_name", "graphql_client")
+        style = case["scalar_paths"]
+        cfg["scalars"] = {}
+        for k, sname in enumerate(spec.scalars):
+            how = style if style != "mixed" else ["absolute-own-package", "cwd-module", "relative"][k % 3]
+            if how == "absolute-own-package":
+                cfg["scalars"][sname] = {"type": "%s.vf_scalars.VfSc%d" % (pkgname, k)}
+            elif how == "cwd-module":
+                cfg["scalars"][sname] = {"type": "local_scalars.VfSc%d" % k}
+            else:
+                cfg["scalars"][sname] = {"type": ".vf_scalars.VfSc%d" % k}
+            feats.add("scalar.path." + how)
+        body = "".join("class VfSc%d(str):\n    pass\n\n\n" % k for k in range(len(spec.scalars)))
+        extra_files = {"vf_scalars.py": body, "local_scalars.py": body}
+        cfg["files_to_include"] = ["vf_scalars.py"]
     for pl in cfg.get("plugins", []):
         feats.add("plugin." + pl.rsplit(".", 1)[1])
     out["feats"] = sorted(feats)
@@ -150,6 +169,8 @@ def one_case(case: Dict[str, Any]) -> Dict[str, Any]:
         for label, order, hs in variants:
             wd = base / label
             lay_out(wd, sdl_defs, query_defs, cfg, order, strategy)
+            for rel, text in extra_files.items():
+                (wd / rel).write_text(text)
             rc, log = run_generation(wd, strategy, hs, glob_shuffle=(order if order is not None else None))
             out["stats"]["runs"] = out["stats"].get("runs", 0) + 1
             if rc != 0:
@@ -220,6 +241,9 @@ def run(tier: str, seed: int) -> int:
         if strategy == "client":
             kw["plugins"] = PLUGIN_SETS[i % len(PLUGIN_SETS)]
             kw["comments"] = ["none", "stable"][i % 2]
+            if i % 3 == 1:
+                kw["scalar_paths"] = ["absolute-own-package", "mixed", "cwd-module"][(i // 3) % 3]
+                kw["dirty"] = sorted(set(kw["dirty"]) | {"schema.force_scalar"})
         else:
             kw["target"] = ["schema_out.py", "schema_out.graphql", "schema_out.gql"][i % 3]
         c = cw.make_case(seed, i, **kw)
